@@ -21,10 +21,14 @@ var (
 
 func main() {
 	r := core.Start("C12")
-	if pf := os.Getenv("C12_CPUPROFILE"); pf != "" && !r.IsWorker() {
+	if pf := os.Getenv("C12_CPUPROFILE"); pf != "" && (!r.IsWorker() || os.Getenv("C12_PROFILE_WORKER") != "") {
 		f, _ := os.Create(pf)
 		_ = pprof.StartCPUProfile(f)
 		defer pprof.StopCPUProfile()
+	}
+	var known bool
+	if theTransport, known = detectTransport(); !known {
+		r.Note("the server's Set-Cookie for a known message is none of raw/hex/base64 MessagePack; part (b) injects raw MessagePack")
 	}
 	if *flagSize >= 0 {
 		runSizeChild(r, *flagSize)
@@ -32,6 +36,7 @@ func main() {
 	}
 	if r.IsWorker() {
 		runPartBWorker(r)
+		pprof.StopCPUProfile()
 		r.FinishWorker()
 		return
 	}
@@ -72,6 +77,9 @@ func main() {
 	pprof.StopCPUProfile()
 	r.Finish(ev)
 }
+
+// theTransport is how the server wraps the MessagePack bytes into the cookie value (learnt at start).
+var theTransport = transports[0]
 
 func has(s string, c byte) bool {
 	for i := 0; i < len(s); i++ {
